@@ -190,3 +190,95 @@ func vTableHarness(li int) {
 
 // VEnv is the exported environment set-up for harnesses of other packages that write or read tables.
 func VEnv() *vrt.FS { return vEnv() }
+
+// H_C03_SliceIndexKernel: the in-memory slice index (binary search, the three iterators) directly, with more keys
+// than the end-to-end harness can afford: n ≤ 4 [5] strictly ascending symbolic keys of length 0..2, symbolic
+// probe and bounds, against a linear scan.
+func H_C03_SliceIndexKernel() {
+	nMax := 4
+	if vrt.Thorough() {
+		nMax = 5
+	}
+	n := vrt.Range("n", 0, nMax)
+	keys := vKeys(n, 2)
+	idx := &SliceKeyIndex{}
+	for i, k := range keys {
+		kk := k
+		if len(kk) == 0 {
+			kk = nil // as decoded from the index file
+		}
+		idx.index = append(idx.index, sliceKey{IndexVal{Offset: uint64(100 + i), Checksum: uint64(i)}, kk})
+	}
+	drain := func(it skiplistIter) []uint64 {
+		var out []uint64
+		for i := 0; i <= n; i++ {
+			_, iv, err := it.Next()
+			if err != nil {
+				return out
+			}
+			out = append(out, iv.Offset)
+		}
+		vrt.Fail("sliceindex/iterator-terminates")
+		return out
+	}
+	expect := func(id string, lo, hi []byte, useLo, useHi bool, got []uint64) {
+		want := 0
+		for i, k := range keys {
+			if useLo && vrt.CmpBytes(k, lo) < 0 {
+				continue
+			}
+			if useHi && vrt.CmpBytes(k, hi) > 0 {
+				continue
+			}
+			if want < len(got) {
+				vrt.Assert(got[want] == uint64(100+i), id+"/entries-in-ascending-order")
+			}
+			want++
+		}
+		vrt.Assert(want == len(got), id+"/exactly-the-matching-entries")
+	}
+	switch vrt.Choose("query", 4) {
+	case 0:
+		probe := vrt.Bytes("probe", 2)
+		want := -1
+		for i, k := range keys {
+			if vrt.EqBytes(k, probe) {
+				want = i
+			}
+		}
+		iv, err := idx.Get(probe)
+		c, _ := idx.Contains(probe)
+		if want >= 0 {
+			vrt.Assert(err == nil && iv.Offset == uint64(100+want), "sliceindex/get-present")
+			vrt.Assert(c, "sliceindex/contains-present")
+		} else {
+			vrt.Assert(err != nil, "sliceindex/get-absent")
+			vrt.Assert(!c, "sliceindex/contains-absent")
+		}
+	case 1:
+		it, err := idx.Iterator()
+		vrt.Assert(err == nil, "sliceindex/iterator-no-error")
+		expect("sliceindex/full", nil, nil, false, false, drain(it))
+	case 2:
+		lo := vrt.Bytes("lo", 2)
+		it, err := idx.IteratorStartingAt(lo)
+		vrt.Assert(err == nil, "sliceindex/starting-at-no-error")
+		expect("sliceindex/starting-at", lo, nil, true, false, drain(it))
+	case 3:
+		lo := vrt.Bytes("lo", 2)
+		hi := vrt.Bytes("hi", 2)
+		it, err := idx.IteratorBetween(lo, hi)
+		if vrt.CmpBytes(lo, hi) > 0 {
+			vrt.Assert(err != nil, "sliceindex/between-lower-above-upper-rejected")
+		} else {
+			vrt.Assert(err == nil, "sliceindex/between-no-error")
+			expect("sliceindex/between", lo, hi, true, true, drain(it))
+		}
+	}
+	vrt.Trace("n", uint64(n))
+	vrt.Reach("sliceindex/end")
+}
+
+type skiplistIter interface {
+	Next() ([]byte, IndexVal, error)
+}
